@@ -699,7 +699,10 @@ template <typename T> static void c20_family(rng& g, bool thorough)
 template <typename T> static void summary_case(std::vector<long long> const& w, long long S, long long N)
 {
     std::size_t n = w.size();
+    // adjustment data: small integers (the maximum difference D of the summary's first line is then an integer, too)
     std::vector<T> weights, adj(n, T(1));
+    std::vector<long long> adj_int;
+    for (std::size_t i = 0; i != n; ++i) { adj_int.push_back((w[i] * 3 + (long long) i * 5) % 11); adj[i] = T(adj_int.back()); }
     for (long long x : w) weights.push_back(T(x) / T(S));
     hep::plain_result<T> pr(std::vector<hep::distribution_result<T>>(), (std::size_t) N, (std::size_t) N, (std::size_t) N, T(1), T(1));
     auto chk = hep::make_multi_channel_chkpt<T>();
@@ -709,12 +712,20 @@ template <typename T> static void summary_case(std::vector<long long> const& w, 
     try { hep::multi_channel_summary(chk, o); } catch (std::exception const&) { status = "threw"; }
     std::istringstream in(o.str());
     std::string line;
-    long long channels = -1, min_count = -1, wmax = -1;
+    long long channels = -1, min_count = -1, wmax = -1, printed_d = -1;
     std::vector<long long> printed, runs;
     while (std::getline(in, line))
     {
         auto chan_of = [&](std::string const& l) { std::size_t p = l.rfind('#'); return p == std::string::npos ? -2LL : std::atoll(l.c_str() + p + 1); };
-        if (line.compare(0, 7, "summary") == 0) { std::size_t p = line.find(" for "); channels = std::atoll(line.c_str() + p + 5); }
+        if (line.compare(0, 7, "summary") == 0)
+        {
+            std::size_t p = line.find(" for "), q = line.find("D=");
+            channels = std::atoll(line.c_str() + p + 5);
+            // (an integer in every case recorded here; anything else is recorded as -1)
+            char* end = nullptr;
+            double const dv = q == std::string::npos ? -1.0 : std::strtod(line.c_str() + q + 2, &end);
+            printed_d = (q != std::string::npos && end != line.c_str() + q + 2 && *end == ' ' && dv == std::floor(dv) && dv >= 0 && dv < 1e6) ? (long long) dv : -1;
+        }
         else if (line.compare(0, 5, "wmin=") == 0)
         {
             std::size_t p = line.find(") in ");
@@ -736,7 +747,8 @@ template <typename T> static void summary_case(std::vector<long long> const& w, 
         else if (line.compare(0, 5, "wmax=") == 0) wmax = chan_of(line);
     }
     ev("Summary").s("T", type_name<T>::get()).a("w", w).i("S", S).i("N", N).s("status", status).i("channels", channels).i("minCount", min_count)
-        .a("minRuns", runs).a("printed", printed).i("wmax", wmax).emit();
+        .a("minRuns", runs).a("printed", printed).i("wmax", wmax).a("adj", adj_int).i("D", printed_d)
+        .i("Dfun", n >= 2 ? (long long) hep::multi_channel_max_difference(chk.results().back()) : 0).emit();
 }
 template <typename T> static void summary_family(rng& g, bool thorough)
 {
